@@ -33,6 +33,7 @@ def shards(tier, seed):
         out.append(("order_sizes_%d" % grp[0], dict(kind="sizes", nbytes=grp)))
     out.append(("pyopt_order_NIST521p", dict(kind="order", cname="NIST521p", _pyopt=True)))
     out.append(("pyopt_rand", dict(kind="rand", count=10, _pyopt=True)))
+    out.append(("child_dev_rand", dict(kind="rand", count=10, _pyopt="dev+maxdigits")))
     out.append(("child_bb_werror_rand", dict(kind="rand", count=10, _pyopt="bb+werror")))
     out.append(("concurrent", dict(kind="concurrent", runs=150 if q else 2000)))
     top = 1 << (11 if q else 12)
